@@ -94,6 +94,11 @@ func neSingle(id string, mut func(s *tstate, x string), alpha string) {
 func VerifC09_ne_package() { neSingle("C09.ne.single-package", func(s *tstate, x string) { s.pkg = x }, pkgAlpha+"/") }
 func VerifC09_ne_name()    { neSingle("C09.ne.single-name", func(s *tstate, x string) { s.name = x }, "ab_") }
 func VerifC09_ne_command() { neSingle("C09.ne.single-command", func(s *tstate, x string) { s.cmd = x }, txtAlpha) }
+// commands are hashed verbatim: layout whitespace (indentation, blank lines, trailing blanks) is part
+// of a shell script (here-documents, quoted multi-line strings)
+func VerifC09_ne_command_layout() {
+	neSingle("C09.ne.single-command-layout", func(s *tstate, x string) { s.cmd = x }, "a \n\t")
+}
 func VerifC09_ne_os()      { neSingle("C09.ne.single-os", func(s *tstate, x string) { s.os = x }, "ab") }
 func VerifC09_ne_arch()    { neSingle("C09.ne.single-arch", func(s *tstate, x string) { s.arch = x }, "ab") }
 func VerifC09_ne_input() {
